@@ -159,28 +159,26 @@ theorem loadStateLog_objects (fl : Flags) (lib : List Cls) (sg : SGraph) (roots 
 
 /-- `instanceValues_serialize` for any list of roots -/
 theorem instanceValues_serialize_roots (fl : Flags) (lib : List Cls) (sg : SGraph) (roots : List Nat)
-    (hwf : WF sg.g) (hr : ∀ r ∈ roots, r < sg.g.size)
-    (hk : ∀ n, Needed sg.g roots n → ∀ a ∈ (sg.g.node n).args, noTypeKey a.value = true) :
+    (hwf : WF sg.g) (hr : ∀ r ∈ roots, r < sg.g.size) :
     instanceValues (serialize fl lib sg roots)
       = .ok ((serialOrder sg.g roots).map
           (fun n => (n, ((sg.g.node n).args.filter present).map (fun a => (a.name, a.value))))) := by
   obtain ⟨_, hiff, _, hcl⟩ := serialOrder_spec sg.g roots hwf hr
   unfold instanceValues
   rw [serialize_ids]
-  exact instanceValuesAux_mkDef fl lib sg _ _ (fun n hn => hk n ((hiff n).1 hn)) hcl
+  exact instanceValuesAux_mkDef fl lib sg _ _ hcl
 
 /-- the value returned by `from_state_dict(state_dict(v), as_instance=True)` and the attributes of the objects -/
 theorem fromStateDictInst_stateDict (fl : Flags) (lib : List Cls) (sg : SGraph) (v : Val)
-    (hwf : WF sg.g) (hkv : noTypeKey v = true) (hr : ∀ r ∈ cfgRefs v, r < sg.g.size)
-    (hk : ∀ n, Needed sg.g (cfgRefs v) n → ∀ a ∈ (sg.g.node n).args, noTypeKey a.value = true) :
+    (hwf : WF sg.g) (hr : ∀ r ∈ cfgRefs v, r < sg.g.size) :
     fromStateDictInst (stateDict fl lib sg v)
       = .ok ((serialOrder sg.g (cfgRefs v)).map
           (fun n => (n, ((sg.g.node n).args.filter present).map (fun a => (a.name, a.value)))), v) := by
   obtain ⟨hnd, hiff, _, _⟩ := serialOrder_spec sg.g (cfgRefs v) hwf hr
-  have hdec := decJ_encJ (serialOrder sg.g (cfgRefs v)) v hkv
+  have hdec := decJ_encJ (serialOrder sg.g (cfgRefs v)) v
     (fun m hm => (hiff m).2 ⟨m, hm, Reach.refl m⟩)
   simp only [fromStateDictInst, stateDict, serialize_ids, firstDup_none _ hnd,
-    instanceValues_serialize_roots fl lib sg (cfgRefs v) hwf hr hk, hdec]
+    instanceValues_serialize_roots fl lib sg (cfgRefs v) hwf hr, hdec]
   rfl
 
 end XpmVerif.Serial
